@@ -200,10 +200,26 @@ def make_body(fn: dict, log, version: str = "", fail=None):
     return body
 
 
+class CallableObject:
+    """A user callable that is an object, not a function: it has ``__name__`` and a signature like the callable a
+    ``NestedPipeFunc`` wraps, but no ``__qualname__`` (``functools.partial`` objects and callable instances are
+    documented as accepted by ``PipeFunc``)."""
+
+    def __init__(self, body) -> None:
+        self._body = body
+        self.__name__ = body.__name__
+        self.__signature__ = body.__signature__
+
+    def __call__(self, **kw):
+        return self._body(**kw)
+
+
 def make_pipefunc(fn: dict, log, version: str = "", fail=None, **extra):
     from pipefunc import PipeFunc
 
     body = make_body(fn, log, version, fail)
+    if fn.get("callable_object"):
+        body = CallableObject(body)
     renames = {o: p for o, p in zip(fn["orig"], fn["params"]) if o != p}
     renames.update({oo: o for oo, o in zip(fn["orig_outs"], fn["outs"]) if oo != o})
     on = fn["orig_outs"][0] if len(fn["outs"]) == 1 else tuple(fn["orig_outs"])
